@@ -613,6 +613,17 @@ func HarnessC09TCPEncryption() {
 	if err1 != nil {
 		vReach("c09:handshake-failed")
 		vAssert(t.Encryption() == SessionEncryptionNone, "c09:failed-handshake-keeps-cleartext")
+		// the deadlines armed on the socket for the handshake (observable natively as well, where the
+		// real TLS handshake fails against the stub connection)
+		vAssert(len(conn.rdl) > 0 && len(conn.wdl) > 0, "c09:handshake-runs-under-a-deadline")
+		if len(conn.rdl) > 0 && len(conn.wdl) > 0 {
+			r, w := conn.rdl[len(conn.rdl)-1], conn.wdl[len(conn.wdl)-1]
+			if hasDeadline {
+				vAssert(r == dl && w == dl, "c09:handshake-deadline-is-the-contexts")
+			} else {
+				vAssert(r <= vNow()+int64(30*time.Second) && w == r, "c09:handshake-deadline-within-thirty-seconds")
+			}
+		}
 		return
 	}
 	vReach("c09:upgraded")
